@@ -254,6 +254,10 @@ int32_t jls_core_signal_def_align(struct jls_signal_def_s * def) {
                 def->entries_per_summary, entries_per_summary);
     }
 
+    // the annotation and UTC index trees have JLS_SUMMARY_LEVEL_COUNT levels: very small factors exhaust them
+    def->annotation_decimate_factor = u32_max(def->annotation_decimate_factor, SUMMARY_DECIMATE_FACTOR_MIN);
+    def->utc_decimate_factor = u32_max(def->utc_decimate_factor, SUMMARY_DECIMATE_FACTOR_MIN);
+
     def->sample_decimate_factor = sample_decimate_factor;
     def->samples_per_data = samples_per_data;
     def->entries_per_summary = entries_per_summary;
